@@ -24,6 +24,8 @@ EXPLANATION = (
 NOT_DECIDED = ['completeness/binding of the queue discipline for all query sets and heights', 'hash collision resistance']
 TRUSTED = ['rustc nightly MIR', 'sha3 / blake2 / starknet-crypto']
 
+THOROUGH_MAIN_CONFIGS = ['b248s6', 'nostd']
+
 
 def run(ctx, rep):
     db = ctx.main
